@@ -433,6 +433,10 @@ def r5_mate_distance(ctx):
                             inner = subst(x[2][0], {})
                             v = fold(sub_turn(inner, t, sg))
                             return ("c", int(bool(v)), "i32", None)
+                        if x[0] == "cast" and x[3] == "bool":
+                            # `cond as i32` / `i32::from(cond)`: 0 or 1 by the condition
+                            v = fold(sub_turn(subst(x[2], {}), t, sg))
+                            return ("c", int(bool(v)), "i32", None)
                         if x[0] == "bin":
                             return ("bin", x[1], prep(x[2]), prep(x[3]), x[4])
                         if x[0] in ("cast", "un"):
